@@ -1313,6 +1313,11 @@ int32_t jls_core_repair_fsr(struct jls_core_s * self, uint16_t signal_id) {
                 JLS_LOGE("Empty index.  Cannot repair.");
                 return JLS_ERROR_NOT_SUPPORTED;
             }
+            if (level > 0) {
+                // continue with the buffers of the level we descended to
+                ROE(jls_core_fsr_summary_level_alloc(signal_info->track_fsr, (uint8_t) level));
+                lvl = signal_info->track_fsr->level[level];
+            }
         }
     }
 
